@@ -10,9 +10,13 @@ NA_DEFAULT = {
            "for concurrency is unsound', probed on thpool.c); no sequentialiser/KLEE/ESBMC in the image; a run-at-join "
            "sequential harness would explore one schedule and claim all (DESIGN.md section 5)",
 }
+enabled = set(open(os.path.join(V, "tools", "enabled.txt")).read().split())
 checks, na = [], []
 for p in props:
     pid = p["id"]
+    if pid not in enabled:
+        na.append({"property_id": pid, "reason": NA_DEFAULT.get(pid, "check not finished yet in this round (planned: DESIGN.md section 4/%s); not claimed" % pid)})
+        continue
     try:
         spec = importlib.import_module("vf.specs." + pid)
     except ModuleNotFoundError:
